@@ -588,6 +588,10 @@ class Symbolic(
       skip_notification = not flags.is_change_notification_enabled()
     if not skip_notification:
       self._notify_field_updates(updates, notify_parents=notify_parents)
+    else:
+      # Structural bookkeeping does not depend on change notification.
+      for target in {id(u.target): u.target for u in updates}.values():
+        target._sync_children()  # pylint: disable=protected-access
     return self
 
   def sym_clone(self,
@@ -1194,6 +1198,9 @@ class Symbolic(
   def _sym_parent_for_children(self) -> Optional['Symbolic']:
     """Returns the symbolic parent for children."""
     return self
+
+  def _sync_children(self) -> None:
+    """Structural bookkeeping after children are inserted or removed."""
 
   def _set_item_of_current_tree(
       self, path: utils.KeyPath, value: Any
